@@ -28,6 +28,23 @@ def limb_value(r):
         v |= l << (i * w); i += 1
     return v & ((1 << 256) - 1)
 
+def carry_pair_value(r):
+    """two limbs (x, y) of width w whose product lies just below 2^(2w-1) with a large low word - the shape on which
+    doubled partial products (a_i*a_j*2 in squaring) wrap their high word; other limbs patterned"""
+    w = r.choice([32, 64, 26, 52])
+    nl = (256 + w - 1) // w
+    while True:
+        x = r.bits(w) | (1 << (w - 1))
+        y, rem = divmod((1 << (2 * w - 1)) - 1, x)
+        if rem < (1 << (w - 1)) and y < (1 << w): break
+    i = r.below(nl); j = r.below(nl)
+    if i == j: j = (i + 1) % nl
+    limbs = [r.choice([0, (1 << w) - 1, r.bits(w), r.bits(w), 1 << (w - 1)]) for _ in range(nl)]
+    limbs[i] = x; limbs[j] = y
+    v = 0
+    for k, l in enumerate(limbs): v |= l << (k * w)
+    return v & ((1 << 256) - 1)
+
 def fe_val(r):
     c = r.below(10)
     if c < 3: return limb_value(r)
@@ -62,6 +79,14 @@ def gen(chk):
         if op == 'equal' and r.chance(1, 3): b = a
         if op == 'cmp' and r.chance(1, 4): b = (a + r.choice([0, 1, P - 1])) % (1 << 256)
         chk.add('fe_op %s %s %s #%d #%d #%d' % (nm(op), h32(a), h32(b), ra, rb, k), 'fe_' + op)
+    # squaring/multiplication on operands with limb pairs whose doubled product wraps (carry of the carry)
+    for i in range(S(1500, 40000)):
+        a = carry_pair_value(r)
+        which = r.below(4)
+        if which == 0: chk.add('sc_op %s %s %s #0' % (nm('sqr'), h32(a), h32(0)), 'sc_sqr_carry_pair')
+        elif which == 1: chk.add('sc_op %s %s %s #0' % (nm('mul'), h32(a), h32(a if r.chance(1, 2) else carry_pair_value(r))), 'sc_mul_carry_pair')
+        elif which == 2: chk.add('fe_op %s %s %s #%d #0 #0' % (nm('sqr'), h32(a), h32(0), r.below(3)), 'fe_sqr_carry_pair')
+        else: chk.add('fe_op %s %s %s #%d #%d #0' % (nm('mul'), h32(a), h32(a if r.chance(1, 2) else carry_pair_value(r)), r.below(3), r.below(3)), 'fe_mul_carry_pair')
     # x = 0 / sqrt of special values
     for v in (0, 1, 4, 7, P - 1, 2, 3, P - 7):
         chk.add('fe_op %s %s %s #0 #0 #0' % (nm('sqrt'), h32(v), h32(0)), 'fe_sqrt')
